@@ -369,7 +369,7 @@ func vkStartCluster(dir string, n int, readerTimeout time.Duration) (*vkCluster,
 		cl.nodes = append(cl.nodes, nd)
 	}
 	// wait until every node knows every node and its own id
-	deadline := time.Now().Add(20 * time.Second)
+	deadline := time.Now().Add(90 * time.Second)
 	for {
 		ok := true
 		for _, nd := range cl.nodes {
@@ -382,7 +382,7 @@ func vkStartCluster(dir string, n int, readerTimeout time.Duration) (*vkCluster,
 		}
 		if time.Now().After(deadline) {
 			cl.close()
-			return nil, fmt.Errorf("data nodes did not register within 20s")
+			return nil, fmt.Errorf("data nodes did not register within 90s")
 		}
 		time.Sleep(20 * time.Millisecond)
 	}
@@ -421,7 +421,7 @@ func (cl *vkCluster) createDB(db string, rf int, shardDur time.Duration) error {
 }
 
 func (cl *vkCluster) waitAll(pred func(mc *meta.Client) bool) error {
-	deadline := time.Now().Add(20 * time.Second)
+	deadline := time.Now().Add(90 * time.Second)
 	for {
 		ok := true
 		for _, nd := range cl.nodes {
@@ -433,7 +433,7 @@ func (cl *vkCluster) waitAll(pred func(mc *meta.Client) bool) error {
 			return nil
 		}
 		if time.Now().After(deadline) {
-			return fmt.Errorf("metadata did not propagate within 20s")
+			return fmt.Errorf("metadata did not propagate within 90s")
 		}
 		time.Sleep(10 * time.Millisecond)
 	}
@@ -464,6 +464,28 @@ func (cl *vkCluster) dropDB(db string) {
 
 func (cl *vkCluster) write(node int, db string, pts []models.Point) error {
 	return cl.nodes[node].srv.PointsWriter.WritePointsPrivileged(db, "rp", models.ConsistencyLevelAll, pts)
+}
+
+// writeAllUp is write for the set-up phase of a case, when every node is up and no fault is injected: a
+// failure there can only be a timeout of the loaded machine (the cluster's internal timeouts are 2 s),
+// so the idempotent write is repeated a few times before the bed gives up.
+func (cl *vkCluster) writeAllUp(node int, db string, pts []models.Point) error {
+	var err error
+	for try := 0; try < 6; try++ {
+		if err = cl.write(node, db, pts); err == nil {
+			return nil
+		}
+		time.Sleep(time.Duration(200*(try+1)) * time.Millisecond)
+	}
+	return err
+}
+
+// vkSetupFailed reports a failure of the bed itself (a set-up step that is not the property under test):
+// the driver counts the run as inconclusive (exit 2), never as a violation.
+func vkSetupFailed(t interface {
+	Fatalf(format string, args ...interface{})
+}, format string, args ...interface{}) {
+	t.Fatalf("VERIF-INCONCLUSIVE harness: "+format, args...)
 }
 
 // shardOwners returns shard id -> owner node ids for db.rp, waiting for the local caches to agree is
